@@ -7,7 +7,7 @@ Require Import EV.model.Chan EV.proofs.ChanP EV.gen.Facts.
 (* the configuration of the channel model as read off the source by tools/gen_facts.py; the shape facts say that
    the functions the model's atomic steps stand for still have the modelled structure *)
 Definition chan_cfg : ccfg := {| setcb_atomic := chan_setcb_atomic && chan_receiver_locked |}.
-Lemma C07_cfg_ok : cfg_ok chan_cfg /\ chan_receive_shape_ok = true /\ chan_local_close_order_ok = true /\ chan_cb_error_closes_with_error = true /\ chan_handlers_ok = true.
+Lemma C07_cfg_ok : cfg_ok chan_cfg /\ chan_receive_shape_ok = true /\ chan_local_close_order_ok = true /\ chan_cb_error_closes_with_error = true /\ chan_handlers_ok = true /\ chan_errortext_ok = true.
 Proof. repeat split; reflexivity. Qed.
 Definition C07_C : cfg_ok chan_cfg := proj1 C07_cfg_ok.
 
@@ -16,6 +16,25 @@ Definition C07_C : cfg_ok chan_cfg := proj1 C07_cfg_ok.
 Theorem C07_error_at_most_once : forall n ls id, errs (cs (crun chan_cfg ls (cinit n)) id) + errs_out (crun chan_cfg ls (cinit n)) id <= errs_in (crun chan_cfg ls (cinit n)) id.
 Proof. exact (errors_at_most_once chan_cfg C07_C). Qed.
 Print Assumptions C07_error_at_most_once.
+
+(* the CLOSE_ERROR frame for a registered channel records exactly one pending error on that channel and touches no other *)
+Theorem C07_error_recorded_on_its_channel : forall c s s' id w, fin s = false -> wire s = FEnd id KCloseErr :: w -> alive (cs s id) = true ->
+  cstep c s LRecv = Some s' ->
+  errs (cs s' id) = S (errs (cs s id)) /\ (forall j, j <> id -> cs s' j = cs s j) /\ errs_in s' id = S (errs_in s id).
+Proof. exact close_error_recorded. Qed.
+Print Assumptions C07_error_recorded_on_its_channel.
+
+(* the receive() that meets the ENDMARKER hands a pending error to its caller -- RemoteError, not EOFError -- and removes it;
+   without a pending error it raises EOFError *)
+Theorem C07_error_handed_over : forall c s s' t id k, nth_error (thr s) t = Some (CHold id) -> errs (cs s id) = S k ->
+  cstep c s (LReput t) = Some s' ->
+  errs_out s' id = S (errs_out s id) /\ errs (cs s' id) = k /\ eofs s' id = eofs s id.
+Proof. exact reput_hands_over_error. Qed.
+Print Assumptions C07_error_handed_over.
+Theorem C07_eof_without_error : forall c s s' t id, nth_error (thr s) t = Some (CHold id) -> errs (cs s id) = 0 ->
+  cstep c s (LReput t) = Some s' -> eofs s' id = S (eofs s id) /\ errs_out s' id = errs_out s id.
+Proof. exact reput_eof_without_error. Qed.
+Print Assumptions C07_eof_without_error.
 
 (* the error is raised by the first receive that meets the ENDMARKER, EOFError afterwards *)
 Example C07_witness : let s := crun chan_cfg [LNew 1; LPeerSend 1 7; LPeerEnd 1 KCloseErr; LRecv; LRecv; LGet 0 1; LGet 0 1; LReput 0; LGet 0 1; LReput 0] (cinit 1) in
